@@ -237,6 +237,7 @@ func c02Run(c *core.Ctx) {
 		}
 	}
 	c02Trees(c)
+	c02Stmts(c)
 	// soundness self-check of the prefilter at n<=3: nothing it drops may be a valid subset program
 	if c.Shard == 0 {
 		for L := 1; L <= 3; L++ {
@@ -349,4 +350,62 @@ func c02Trees(c *core.Ctx) {
 			}
 		})
 	}
+}
+
+// c02Stmts: universe (iii) — statement families (every statement form x body kind x neighbour whose
+// first token is ( [ - ++ ` identifier keyword, nested function expressions) in every layout with at
+// most k deviations (gap kinds incl. comments, blank lines, CRLF; optional semicolons dropped).
+func c02Stmts(c *core.Ctx) {
+	level, k := 1, 1
+	gaps := gen.GapAlts
+	if c.Thorough() {
+		level, k = 2, 2
+	}
+	gen.Programs(level, func(prog []*gen.Node, name string) {
+		if !c.Next() || c.Tick() {
+			return
+		}
+		toks := gen.UnparseProgram(prog, false)
+		want := gen.ShapeProgram(prog)
+		kk, gg := k, gaps
+		if kk > 1 {
+			gg = []string{"\n", "", " // c\n"}
+			if len(toks) > 30 {
+				kk = 1
+				gg = gaps
+			}
+		}
+		gen.Layouts(toks, kk, gg, func(src string, devs []gen.Dev) {
+			c.Cur(src)
+			c.Inc("reference_parses")
+			gs, _, ok := ref.GShape(src)
+			if !ok {
+				c.Inc("stmt_texts_outside_domain")
+				if len(devs) == 0 {
+					c.Inc("generator_default_layout_rejected_by_reference")
+					c.Note("generator_rejected_example", src)
+				}
+				return
+			}
+			c.Inc("programs")
+			c.Inc("stmt_programs")
+			if len(devs) == 0 {
+				if c.Distinct("stmt", want) {
+					c.Inc("distinct_valid_token_sequences")
+				}
+				if gs != want {
+					c.Inc("generator_intent_differs_from_reference")
+					c.Note("generator_mismatch_example", src+" intended "+want+" reference "+gs)
+				}
+			}
+			_, kd, d := c02Check(src)
+			if kd != "" && c.ShrinkOK(kd) {
+				pl, _ := json.Marshal(c02Payload{src})
+				c.Violate(core.Violation{Kind: kd, Config: "stmt", Case: fmt.Sprintf("%q", src), Detail: d, Payload: pl, Size: len(toks)})
+			}
+			if c.Count0()%301 == 0 && len(devs) == 1 {
+				c.Sample(src)
+			}
+		})
+	})
 }
